@@ -1,5 +1,6 @@
 (* C10 — Literal text, raw blocks, comments and whitespace control.  Property theorems only.
-   Model: Lex.v (scanner of liquid/lex.py after the fixes C10-raw-endraw-marker and C10-final-newline, plus the
+   Model: Lex.v (scanner of liquid/lex.py after the fixes C10-raw-endraw-marker, C10-final-newline and
+   C11-unclosed-markup-custom-delimiters, plus the
    parser/renderer for the literal fragment); specification: LexSpec.v (templates as texts alternating with markup,
    spec_render).  A template is a list of (text, markup) pairs and a final text; [build d tp] is its source. *)
 From Coq Require Import String.
@@ -11,7 +12,7 @@ Local Open Scope string_scope. Local Open Scope list_scope.
    before it carries '-' and right-stripped iff the opening delimiter after it carries '-'; output/echo write their
    string; a raw block writes its body; comments, doc, shorthand and inline comments write nothing.
    PARTIAL in its hypothesis [no_collision]: texts and comment bodies range over characters that are not the first
-   character of an opening delimiter and not '{' (raw/doc bodies: not the first character of the tag delimiter;
+   character of an opening delimiter (raw/doc bodies: not the first character of the tag delimiter;
    expressions/inline-comment bodies: not the first character of their closing delimiter, not ending in '-').
    What is missing for the full quantifier: texts containing markup-like fragments ("{", "{ {", "%}" ...), for which
    the occurrence/overlap reasoning about find_first is not done; those are covered by the correspondence run only.
